@@ -117,6 +117,7 @@ func sameSet(a, b []string) bool {
 func (j *judge) conservation(c *cycleCtx, cyc int) {
 	st := oracle.NewStats()
 	vs := append(oracle.CheckC01(c.m, c.s.Events, cyc, st), oracle.CheckC02(c.m, c.s.Events, cyc, st)...)
+	vs = append(vs, oracle.CheckClaimedDevices(c.m, c.s.Events, nil, cyc, st)...) // DRA: claimed devices are conserved too
 	for k, v := range st.Counters {
 		j.count["conservation_"+k] += v
 	}
@@ -183,6 +184,29 @@ func (j *judge) conservation(c *cycleCtx, cyc int) {
 					j.count["snapshot_binding_gpu_group_checked"]++
 					if s.GroupUsed[g] <= 0 {
 						j.report("snapshot-not-charged", "gpu-group-memory-not-used", cyc, "GPU group %s of the binding pod has no used memory on the node: %s", g, desc)
+					}
+				}
+				// DRA: the binding pod carries the claim allocations of its request, and the devices are taken in the
+				// scheduler's view (so no later cycle hands them out again)
+				names := make([]string, 0, len(b.Claims))
+				for n := range b.Claims {
+					names = append(names, n)
+				}
+				sort.Strings(names)
+				for _, n := range names {
+					want := b.Claims[n]
+					if len(want) == 0 {
+						continue
+					}
+					j.count["snapshot_binding_claim_checked"]++
+					if !sameSet(want, s.ClaimDevs[n]) {
+						j.report("snapshot-not-charged", "claim-allocation-differs", cyc, "claim %s of the binding pod: the request allocates %v, the snapshot's pod carries %v: %s", n, want, s.ClaimDevs[n], desc)
+						continue
+					}
+					for _, dev := range want {
+						if !s.DevTaken[dev] {
+							j.report("snapshot-not-charged", "claimed-device-not-taken", cyc, "device %s allocated by the request (claim %s) is not in the scheduler's allocated-device set at session open: %s", dev, n, desc)
+						}
 					}
 				}
 			}
